@@ -17,6 +17,7 @@ import (
 )
 
 type nativeResult struct {
+	Race    bool          `json:"-"`
 	Events  []ReplayEvent `json:"events"`
 	Outcome string        `json:"outcome"`
 	Panic   string        `json:"panic"`
@@ -82,7 +83,9 @@ func replayAll(w *World, out *RunOutput, hfiles map[string][]string) {
 			nr := results[i]
 			if j.viol != nil {
 				j.viol.Replayed = true
-				if j.viol.Fault {
+				if strings.HasPrefix(j.viol.Msg, "race:") {
+					j.viol.Confirmed = nr.Race
+				} else if j.viol.Fault {
 					j.viol.Confirmed = nr.Outcome == "fault" || nr.Outcome == "killed"
 				} else if nr.Outcome == "killed" {
 					// the process died (out of memory / timeout): confirms only a resource violation
@@ -190,7 +193,12 @@ func runNative(w *World, dir string, p *ssa.Package, jobs []*replayJob, hfiles m
 	os.WriteFile(ovPath, ob, 0644)
 	bin := filepath.Join(work, "replay.test")
 	env := append(os.Environ(), "GOFLAGS=-mod=mod", "GOPROXY=off", "GOSUMDB=off", "GOTOOLCHAIN=local")
-	build := exec.Command("go", "test", "-c", "-o", bin, "-tags", "verif", "-vet=off", "-ldflags=-checklinkname=0", "-overlay", ovPath, "./"+dir)
+	buildArgs := []string{"test", "-c", "-o", bin, "-tags", "verif", "-vet=off", "-ldflags=-checklinkname=0", "-overlay", ovPath}
+	if *flagProp == "C18" {
+		buildArgs = append(buildArgs, "-race") // C18 violations are confirmed by the race detector
+	}
+	buildArgs = append(buildArgs, "./"+dir)
+	build := exec.Command("go", buildArgs...)
 	build.Dir = *flagRepo
 	build.Env = env
 	if outb, err := build.CombinedOutput(); err != nil {
@@ -231,6 +239,11 @@ func runNative(w *World, dir string, p *ssa.Package, jobs []*replayJob, hfiles m
 		var results []nativeResult
 		if err := json.Unmarshal(rb, &results); err != nil {
 			return nil, err
+		}
+		if strings.Contains(buf.String(), "WARNING: DATA RACE") {
+			for i := range results {
+				results[i].Race = true
+			}
 		}
 		return results, nil
 	}
